@@ -1,5 +1,5 @@
 CONSTANTS
-  Mentioned = {"a", "b", "c"}
+  Mentioned = {"a", "b", "ab"}
   Fresh = "zz"
   MaxDeny = 2
   MaxList = 0
